@@ -8,6 +8,8 @@ import common
 import gen
 import progcases
 
+TWINS = ['weights']      # harness/twins.py: which part of a twin text carries the difference
+
 N = {"quick": 260, "thorough": 8000}
 
 
@@ -137,9 +139,11 @@ def run(ctx):
     run_vectors(ctx, n)
     run_compiled(ctx, max(20, n // 4))
     run_compiled_at_positions(ctx, max(30, n // 3))
+    choicelib.run_half_step(ctx, max(40, n // 4))
     subnormal_probe(ctx)
 
 
 def search(ctx):
     run_vectors(ctx, 1500, with_model=False)
     run_compiled_at_positions(ctx, 500)
+    choicelib.run_half_step(ctx, 500)
